@@ -12,6 +12,8 @@
  */
 #include "common.h"
 #include <string.h>
+#include <unistd.h>
+#include <sys/wait.h>
 #include <skinny128-cipher.h>
 #include <skinny64-cipher.h>
 #include <mantis-cipher.h>
@@ -21,11 +23,29 @@
 
 extern int g_prelude_opt, g_prelude_used;   /* common.c */
 
+static void prelude_body(int g_prelude);
+int g_prelude_crashed;      /* the prelude sequence (valid calls on zeroed objects) killed a probe process: skipped in this process */
+
 void run_prelude(void)
 {
-    uint8_t key[48], tw[16], buf[160], out[160];
     int g_prelude = g_prelude_opt >= 0 ? g_prelude_opt : g_opts.shard % 3;
     g_prelude_used = g_prelude;
+    if (g_prelude) {
+        /* the prelude is process history, not an oracle; a library that dies in it must not take the harness down:
+         * it is tried in a child first */
+        pid_t pid; int status = 0;
+        fflush(stdout); fflush(stderr);
+        pid = fork();
+        if (pid == 0) { prelude_body(g_prelude); _exit(0); }
+        if (pid > 0) waitpid(pid, &status, 0);
+        if (pid < 0 || !WIFEXITED(status) || WEXITSTATUS(status) != 0) { g_prelude_crashed = 1; note_num("prelude_sequence_died_in_a_probe_process", 1); return; }
+    }
+    prelude_body(g_prelude);
+}
+
+static void prelude_body(int g_prelude)
+{
+    uint8_t key[48], tw[16], buf[160], out[160];
     lcg_fill(key, sizeof(key), 7001); lcg_fill(tw, sizeof(tw), 7002); lcg_fill(buf, sizeof(buf), 7003);
     if (g_prelude == 1) {
         Skinny128TweakedKey_t a; Skinny64TweakedKey_t b; MantisKey_t m;
